@@ -9,7 +9,9 @@
                            END
        lines are printed in AstPrinter's shape without the [loc=..] field
    hvmain c07front         stdin: paths as above; writes <path>.front = machine format of XConstProp.front p
-       (the program the code generator works from), prints   FRONT <path> <ok|ub ..|err ..>
+       (the program the code generator works from), prints   HYP <path> names_ok=<0|1> swap_safe=<0|1>
+       (the two decidable hypotheses of C07_front_preserves_partial, extracted XFrontPreserve.names_ok and
+       front_swap_safe, on the source program) and then      FRONT <path> <ok|ub ..|err ..>
    hvmain c07gc            stdin: one int value per line
        one line per value:     A <imm|pool> <v> B <imm|pool> <v>       (XConstProp.gen_const for areg and breg)
    hvmain c07xsem <steps> <depth>     stdin: lines  <path> <hex input|->
@@ -125,6 +127,8 @@ let front_main () =
     (match r with
      | XConstProp.COk q -> let oc = open_out_bin (path ^ ".front") in output_string oc (sx_program q); close_out oc
      | _ -> ());
+    P.printf "HYP %s names_ok=%d swap_safe=%d\n" path (if XFrontPreserve.names_ok prog then 1 else 0)
+      (if XFrontPreserve.front_swap_safe prog then 1 else 0);
     P.printf "FRONT %s %s\n" path (status r))
 
 (* ---------------------------------------------------------------- batch spec runs *)
